@@ -710,7 +710,7 @@ class FlowJob:
 
     def __init__(self, ctx):
         import threading
-        n = ctx.size(280, 6000)
+        n = ctx.size(280, 4000)
         self.items = [{'seed': 'C06-%s-flow-%d' % (ctx.seed, i), 'programs': 1,
                        'per_program': ctx.size(8, 12), 'nargs': ctx.size(10, 16)} for i in range(n)]
         self.result = None
@@ -719,18 +719,25 @@ class FlowJob:
         self.thread.start()
 
     def _run(self):
+        import time
+        t0 = time.time()
         try:
             self.result = common.parallel_map('gen.refactor_flow', 'flow_worker', self.items, jobs=14)
         except BaseException as e:     # noqa: re-raised in the main thread
             self.error = e
+        self.wall = time.time() - t0
 
     def finish(self, ctx):
         self.thread.join()
         if self.error is not None:
             raise self.error
+        n = 0
         for recs in self.result:
             for r in recs:
+                n += 1
                 flow_judge(ctx, r)
+        ctx.notes.append('flow stream: %d programs, %d (program, selection) cases in %.0f s wall of 14 workers, '
+                         'concurrent with the in-process streams' % (len(self.items), n, self.wall))
 
 
 def fixed_probes(ctx):
@@ -770,6 +777,7 @@ def fixed_probes(ctx):
         ('def f():\n    a = 1\n    return a\ny = f()\n', 'extract_function', (2, 4), (2, 5)),
         ('def f():\n    a = 1\n    return a\ny = f()\n', 'extract_function', (2, 4), (2, 9)),
         ('def f():\n    a = 1\n    return a\ny = f()\n', 'extract_function', (3, 4), (4, 0)),
+        ('a = 1\nx = a * 3\na -= 1\ny = x\n', 'inline', (2, 0), None),
     ]
     from jedi.api.exceptions import RefactoringError
     for src, kind, pos, until in more:
@@ -824,10 +832,13 @@ def compare(ctx, reqs, pending, answers):
 def run(ctx):
     load_own_known(ctx, 'C06')
     reqs, pending = [], []
+    import time
     job = FlowJob(ctx)
+    t0 = time.time()
     fixed_probes(ctx)
     flow_corpus(ctx)
     stream_programs(ctx, reqs, pending)
+    ctx.notes.append('in-process streams (probes, corpus, generated programs): %.0f s' % (time.time() - t0))
     job.finish(ctx)
     if ctx.model_ok:
         # one driver run: the table first, then the captured inline / _replace calls
